@@ -351,6 +351,9 @@ EQUIVALENTS = [
     ("closest-duration-by-min-key", ("C06", "C09"), [(ABS,
       "                    best_fit = valid_durations[find_minimal_distance(current_duration, valid_durations)]",
       "                    best_fit = min(valid_durations, key=lambda duration: abs(duration - current_duration))")]),
+    ("vocabulary-token-by-join", ("C02", "C01", "C19"), [(TOKF,
+      '            parts = list(combination)\n            token = ""\n\n            if self.flag_fuse_track:\n                token += f"{TokenisationPrefixes.TRACK.value}_{parts.pop(0):02}-"\n\n            token += f"{TokenisationPrefixes.PITCH.value}_{parts.pop(0):03}-"\n\n            if self.flag_fuse_value:\n                token += f"{TokenisationPrefixes.VALUE.value}_{parts.pop(0):02}-"\n\n            if self.flag_fuse_velocity:\n                token += f"{TokenisationPrefixes.VELOCITY.value}_{parts.pop(0):03}"\n\n            if token.endswith("-"):\n                token = token[:-1]\n',
+      '            parts = list(combination)\n            pieces = []\n\n            if self.flag_fuse_track:\n                pieces.append(f"{TokenisationPrefixes.TRACK.value}_{parts.pop(0):02}")\n\n            pieces.append(f"{TokenisationPrefixes.PITCH.value}_{parts.pop(0):03}")\n\n            if self.flag_fuse_value:\n                pieces.append(f"{TokenisationPrefixes.VALUE.value}_{parts.pop(0):02}")\n\n            if self.flag_fuse_velocity:\n                pieces.append(f"{TokenisationPrefixes.VELOCITY.value}_{parts.pop(0):03}")\n\n            token = "-".join(pieces)\n')]),
     ("transpose-shift-helper", ("C14",), [(REL,
       "                msg.note += transpose_by\n                while msg.note < NOTE_LOWER_BOUND:\n                    had_to_shift = True\n                    msg.note += 12\n                while msg.note > NOTE_UPPER_BOUND:\n                    had_to_shift = True\n                    msg.note -= 12\n",
       "                if RelativeSequence._shift_note(msg, transpose_by):\n                    had_to_shift = True\n"),
